@@ -81,7 +81,45 @@ def make_bundle(pri_crc, pay_crc, exts, plen, flags=0, frag=None, dest='dtn://fa
     return dict(primary=pri, blocks=blocks)
 
 
-def do_send(bundle, mtu, origin, security=False):
+def check_local_clockless(bundle, mtu, obs):
+    ''' A bundle sourced here without a creation time: the node may give it one, but then the same one to every fragment, and
+    every fragment stays within the MTU and the payload ranges tile the payload. '''
+    # (typed: the application builds the Bundle Age block from its value, as bp.app code does)
+    outs, exc, loop_errs, _res = do_send(bundle, mtu, 'local', typed=True)
+    problems = []
+    detail = dict(bundle=bpv7.encode(bundle).hex(), mtu=mtu, outputs=[len(out) for out in outs], origin='local', security=False)
+    idents = set()
+    spans = []
+    for out in outs:
+        try:
+            dec, _probs = bpv7.decode(out)
+        except bpv7.DecodeError as err:
+            problems.append(('undecodable', 'output does not decode: %s' % err))
+            continue
+        idents.add((dec['primary']['src'], dec['primary']['create_time'], dec['primary']['seqno']))
+        if len(out) > mtu:
+            problems.append(('oversized', 'output of %d octets on a route with MTU %d (bundle sourced here without creation time)' % (len(out), mtu)))
+        if dec['primary']['flags'] & bpv7.FLAG_IS_FRAGMENT:
+            size = len(bpv7.payload_of(dec)['data'])
+            spans.append((dec['primary']['frag_offset'], dec['primary']['frag_offset'] + size))
+    if len(idents) > 1:
+        problems.append(('identity', 'the fragments of one bundle sourced here without creation time carry %d different identities %s' % (
+            len(idents), sorted(idents)[:3])))
+    if spans:
+        obs['fragments_checked'] += len(spans)
+        pos = 0
+        for (lo, hi) in sorted(spans):
+            if lo != pos:
+                problems.append(('tiling', 'fragment ranges %s do not tile the payload' % sorted(spans)[:8]))
+                break
+            pos = hi
+        else:
+            if pos != len(bpv7.payload_of(bundle)['data']):
+                problems.append(('tiling', 'fragment ranges %s do not cover the payload of %d octets' % (sorted(spans)[:8], len(bpv7.payload_of(bundle)['data']))))
+    return problems, detail
+
+
+def do_send(bundle, mtu, origin, security=False, typed=False):
     ''' Send one bundle through a fresh real agent.
     :return: (list of output byte strings, exception or None, loop errors, settle result)
     '''
@@ -98,7 +136,7 @@ def do_send(bundle, mtu, origin, security=False):
         if bundle.get('_unnumbered'):
             # the application left the numbering of its extension blocks to the agent
             bundle = dict(bundle, blocks=[dict(blk, num=None) if blk['type'] != 1 else blk for blk in bundle['blocks']])
-        real = gen.to_real(bundle, typed=False)
+        real = gen.to_real(bundle, typed=typed)
         try:
             node.send(BundleContainer(real))
         except Exception as exc:  # pylint: disable=broad-except
@@ -350,6 +388,18 @@ def run_case(case):
                 one(bundle, full, origin)
                 one(bundle, full - 1, origin)
                 one(bundle, max(1, nonpay - 5), origin)
+            if origin == 'local':
+                # sourced here with creation time 0 and a Bundle Age block that is not marked for replication (only the first fragment
+                # will carry it): whatever creation time the node settles on, every fragment carries the same one
+                for plen in (100, 300):
+                    bundle = make_bundle(pri_crc, pay_crc, exts, plen, seq=plen + 7000, clockless=True)
+                    for blk in bundle['blocks']:
+                        if blk['type'] == 7:
+                            blk['flags'] = 0
+                    full = len(bpv7.encode(bundle))
+                    for mtu in (full - plen + 30, full - plen + 60):
+                        obs['clockless_local_sends'] = obs.get('clockless_local_sends', 0) + 1
+                        _collect(*check_local_clockless(bundle, mtu, obs), violations)
             if origin == 'recv':
                 # received from a source without a clock: the fragments must keep that identity
                 for plen in (24, 100, 300):
